@@ -43,13 +43,16 @@ EXPLANATION = ("Lean, over the table regenerated from the current source (decide
                "proved: soundness of the extracted rows w.r.t. the C++ (translator claim, validated by the tie: every observed "
                "finding must be possible for a row; tie_coverage says how many rows were exercised); monotonicity ACROSS checks "
                "(a finding suppressed because another check reported the token first, diag()): CLI correspondence only, three "
-               "known findings; 'alters a finding': sampled only. Emitters outside lib/check*.cpp (preprocessor, tokenizer, symbol "
+               "known findings; value selection: ValueFlow::findValue is modelled (select-then-gate, proved monotone, compared in-process "
+               "with the real function; the filter-then-select shape is proved non-monotone and rejected by the translator), composite "
+               "selectors in the checks (getValueGE then getValueLE) only by CLI templates (two known findings); 'alters a finding': sampled only. Emitters outside lib/check*.cpp (preprocessor, tokenizer, symbol "
                "database, cppcheck.cpp; addons = C34): CLI only. Checks::unusedFunction / missingInclude, --check-library, premium and "
                "safe-checks flags are held at their defaults.")
 THEOREMS = ["Cppcheck.SevGate.gated_partial", "Cppcheck.SevGate.gated_cli_partial", "Cppcheck.SevGate.inconclusive_gated_partial",
             "Cppcheck.SevGate.table_positive", "Cppcheck.SevGate.table_monotone", "Cppcheck.SevGate.monotone_of_positive",
             "Cppcheck.SevGate.monotone_needs_positive", "Cppcheck.SevGate.gated_counterexample", "Cppcheck.SevGate.inconclusive_counterexample",
-            "Cppcheck.SevGate.possible_of_mayReport"]
+            "Cppcheck.SevGate.possible_of_mayReport", "Cppcheck.SevGate.Select.findValue_monotone", "Cppcheck.SevGate.Select.findValue_gated",
+            "Cppcheck.SevGate.Select.findValueFiltered_not_monotone"]
 MODULES = ["Cppcheck.Props.C27"]
 
 REPO = core.REPO
@@ -97,13 +100,105 @@ SUMMARIES = [
      "{ if (!severity.isEnabled(Severity::warning) && (value->condition || value->defaultArg)) return false; "
      "if (!certainty.isEnabled(Certainty::inconclusive) && (inconclusiveCheck || value->isInconclusive())) return false; return true; }"),
     ("ValueFlow::Value::errorSeverity", "lib/vfvalue.h", r"bool\s+errorSeverity\s*\(\s*\)\s*const\s*\{", "{ return !condition && !defaultArg; }"),
+    # value selectors that read the settings: select with a FIXED preference, then gate (Model: Select.findValue).  A settings test
+    # that precedes / steers the selection makes the selected value depend on the options (Select.findValueFiltered_not_monotone)
+    ("ValueFlow::findValue", "lib/valueflow.cpp", r"(?m)^const\s+ValueFlow::Value\s*\*\s*ValueFlow::findValue\s*\(",
+     "{ const ValueFlow::Value* ret = nullptr; for (const ValueFlow::Value& v : values) { if (pred(v)) { "
+     "if (!ret || ret->isInconclusive() || (ret->condition && !v.isInconclusive())) ret = &v; "
+     "if (!ret->isInconclusive() && !ret->condition) break; } } "
+     "if (ret) { if (ret->isInconclusive() && !settings.certainty.isEnabled(Certainty::inconclusive)) return nullptr; "
+     "if (ret->condition && !settings.severity.isEnabled(Severity::warning)) return nullptr; } return ret; }"),
+    ("Token::getValueLE", "lib/token.cpp", r"(?m)^const\s+ValueFlow::Value\s*\*\s*Token::getValueLE\s*\(",
+     "{ if (!mImpl->mValues) return nullptr; return ValueFlow::findValue(*mImpl->mValues, settings, [&](const ValueFlow::Value& v) { "
+     "return !v.isImpossible() && v.isIntValue() && v.intvalue <= val; }); }"),
+    ("Token::getValueGE", "lib/token.cpp", r"(?m)^const\s+ValueFlow::Value\s*\*\s*Token::getValueGE\s*\(",
+     "{ if (!mImpl->mValues) return nullptr; return ValueFlow::findValue(*mImpl->mValues, settings, [&](const ValueFlow::Value& v) { "
+     "return !v.isImpossible() && v.isIntValue() && v.intvalue >= val; }); }"),
+    ("Token::getInvalidValue", "lib/token.cpp", r"(?m)^const\s+ValueFlow::Value\s*\*\s*Token::getInvalidValue\s*\(",
+     "{ if (!mImpl->mValues) return nullptr; const ValueFlow::Value *ret = nullptr; "
+     "for (auto it = mImpl->mValues->begin(); it != mImpl->mValues->end(); ++it) { if (it->isImpossible()) continue; "
+     "if ((it->isIntValue() && !settings.library.isIntArgValid(ftok, argnr, it->intvalue, settings)) || "
+     "(it->isFloatValue() && !settings.library.isFloatArgValid(ftok, argnr, it->floatValue, settings))) { "
+     "if (!ret || ret->isInconclusive() || (ret->condition && !it->isInconclusive())) ret = &(*it); "
+     "if (!ret->isInconclusive() && !ret->condition) break; } } "
+     "if (ret) { if (ret->isInconclusive() && !settings.certainty.isEnabled(Certainty::inconclusive)) return nullptr; "
+     "if (ret->condition && !settings.severity.isEnabled(Severity::warning)) return nullptr; } return ret; }"),
     ("SimpleEnableGroup::isEnabled", "lib/settings.h", r"bool\s+isEnabled\s*\(\s*T\s+flag\s*\)\s*const\s*\{",
      "{ return (mFlags & (1U << static_cast<uint32_t>(flag))) != 0; }"),
 ]
 
 
+# call sites in the check classes that pass `isEnabled(...)` as an ARGUMENT to a function outside the check classes
+# (ValueFlow::isOutOfBounds(size, indexTok, warningEnabled) -> Token::getMaxValue(condition): conditional values take part in the
+#  maximum only with warning enabled; the CLI templates `container`/`stringidx` exercise it)
+EXPECTED_OPTION_STEERED_CALLS = ["checkstl.cpp:CheckStl::outOfBounds -> isOutOfBounds"]
+
+# functions outside the check classes that return a ValueFlow::Value* / Token* and test a severity / certainty option themselves
+EXPECTED_OPTION_READING_SELECTORS = ["Token::getInvalidValue", "ValueFlow::findValue"]
+
+
+def selector_inventory():
+    """-> (names of value selectors in lib/ (not check*.cpp) whose body tests a severity/certainty option, shape problems)"""
+    found, bad = [], []
+    for p in sorted(glob.glob(os.path.join(REPO, "lib", "*.cpp"))):
+        bn = os.path.basename(p)
+        if bn.startswith("check"):
+            continue
+        try:
+            t = open(p, encoding="utf-8", errors="replace").read()
+        except OSError:
+            continue
+        if "isEnabled(" not in t:
+            continue
+        t = re.sub(r"/\*.*?\*/", lambda mm: re.sub(r"[^\n]", " ", mm.group(0)), t, flags=re.S)
+        t = re.sub(r"//[^\n]*", "", t)
+        t = re.sub(r'"([^"\\\n]|\\.)*"', '""', t)
+        t = re.sub(r"'([^'\\\n]|\\.)+'", "' '", t)
+        for m in re.finditer(r"^(?:static\s+)?(?:const\s+)?(?:ValueFlow::)?Value\s*\*\s*(?:const\s+)?([A-Za-z_][\w:]*)\s*\(", t, re.M):
+            i = t.find("{", m.end())
+            j = t.find(";", m.end())
+            if i < 0 or (0 <= j < i):
+                continue
+            d, e = 0, i
+            while e < len(t):
+                if t[e] == "{":
+                    d += 1
+                elif t[e] == "}":
+                    d -= 1
+                    if d == 0:
+                        break
+                e += 1
+            body = t[i:e + 1]
+            tests = [x.start() for x in re.finditer(r"(severity|certainty)\s*\.\s*isEnabled\s*\(", body)]
+            if not tests:
+                continue
+            found.append(m.group(1))
+            # shape: every option test comes AFTER the last loop of the body (select, then gate)
+            loops = [x.start() for x in re.finditer(r"\b(for|while)\s*\(", body)]
+            if loops:
+                k = body.find("{", loops[-1])
+                d, e2 = 0, k
+                while 0 <= k and e2 < len(body):
+                    if body[e2] == "{":
+                        d += 1
+                    elif body[e2] == "}":
+                        d -= 1
+                        if d == 0:
+                            break
+                    e2 += 1
+                if any(x < e2 for x in tests):
+                    bad.append("%s (%s): a severity/certainty test precedes or sits inside the selection loop — the selected value "
+                               "depends on the options (filter-then-select, see Select.findValueFiltered_not_monotone)" % (m.group(1), bn))
+    return sorted(set(found)), bad
+
+
 def check_summaries(flag_lits):
     bad = []
+    sel, shape = selector_inventory()
+    bad += shape
+    if sel != EXPECTED_OPTION_READING_SELECTORS:
+        bad.append("value selectors that read severity/certainty options: %s, expected %s (a new one needs a model and a summary)" %
+                   (sel, EXPECTED_OPTION_READING_SELECTORS))
     for what, rel, hdr, expect in SUMMARIES:
         got = function_text(os.path.join(REPO, rel), hdr)
         if got != expect:
@@ -213,7 +308,11 @@ def build_table(fresh=False):
         if name == "reportError" and an.fns[caller].name != "getErrorMessages":
             allsites.add((file, ln))
     unreached = sorted("%s:%s" % s for s in allsites - reached)
-    info = dict(dumps=dstat, functions=len(an.fns), relevant_functions=len(an.relevant), site_functions=len(an.site_fns),
+    steered = sorted("%s:%s -> %s" % x for x in an.steered)
+    if steered != EXPECTED_OPTION_STEERED_CALLS:
+        problems.append("calls that hand an option test to a function outside the check classes (the callee's selection is steered by "
+                        "the options): %s, expected %s" % (steered, EXPECTED_OPTION_STEERED_CALLS))
+    info = dict(option_steered_calls=steered, dumps=dstat, functions=len(an.fns), relevant_functions=len(an.relevant), site_functions=len(an.site_fns),
                 roots=[(an.fns[k].short, why[:160]) for k, why in an.roots if an.fns[k].name != "runChecks"],
                 run_checks_roots=sum(1 for k, _ in an.roots if an.fns[k].name == "runChecks"),
                 rows=len(table), sites=len(reached), unreached_sites=unreached, analysis=an.stats,
@@ -759,6 +858,7 @@ def select_templates(rng):
         pairings = [(c, c) for c in classes]                    # both values match the same predicate: the selector must choose
         if len(classes) > 1:
             pairings.append((classes[0], classes[1]))           # one value per predicate
+            pairings.append((classes[1], classes[0]))
         k = 0
         for ca, cb in pairings:
             for init in ("direct", "cond", "param", "defarg"):
@@ -946,6 +1046,18 @@ def run(ctx, res):
     diff = [i for i in range(min(len(exp), len(got))) if exp[i] != got[i]]
     res.oblig("T:row-verdicts-agree-with-lean", len(got) == len(exp) and not diff, "translation",
               "" if (len(got) == len(exp) and not diff) else "lengths %d/%d first differences %s %s" % (len(got), len(exp), diff[:5], err[-200:]))
+    # ---- value selector: the real ValueFlow::findValue in-process vs Select.findValue (exhaustive up to 4 values, sampled beyond)
+    exe = ctx.harness("c27")
+    fops = []
+    for m in (1, 3, 513, 515):
+        for n in range(0, 5):
+            for ds in itertools.product("01234567", repeat=n):
+                fops.append("F %d %s" % (m, "".join(ds) or "-"))
+        for _ in range(400):
+            fops.append("F %d %s" % (m, "".join(rng.choice("01234567") for _ in range(rng.randint(5, 12)))))
+    rc, impl, err = core.run_lines(exe, [], fops)
+    rc2, model, err2 = core.run_lines(drv, [], fops)
+    core.correspond(ctx, res, "findValue", fops, impl, model, nontrivial=lambda op, out: len(op.split()[2]) >= 2 and out != "-")
     # ---- corpus and the real binary -------------------------------------------------------------------------------------
     wb = witness_batches()
     batches = wb + select_batches(rng) + sample_batches(rng, thorough) + cfg_batches(rng, thorough) + snippet_batches(rng, thorough)
